@@ -364,7 +364,7 @@ def check_op_idx(ctx, num=7):
     ws = attr_writes(P, "_current_op_idx")
     ctx.count_min("writers of _current_op_idx", len(ws), 1)
     gen = P.fn(CT, "Container._tick_generator")
-    if not any(w.fn.node is gen.node for w in ws):
+    if not any(same_fn(w.fn, gen) for w in ws):
         ctx.ob(num, "K3", "_current_op_idx advances when an operator completes", False, gen, gen.node, construct="self._current_op_idx += 1",
                detail="the tick generator never advances the index: kill/suspend would touch operators that already completed")
     for w in ws:
@@ -372,7 +372,7 @@ def check_op_idx(ctx, num=7):
         if who == f"{CT}::Container.__init__":
             ok = isinstance(w.node, (ast.Assign, ast.AnnAssign)) and isinstance(w.node.value, ast.Constant) and w.node.value.value == 0
             ctx.ob(num, "K1", "_current_op_idx starts at 0", ok, w.fn, w.node, detail=f"{stmt_text(w.node)}")
-        elif w.fn.node is gen.node:
+        elif same_fn(w.fn, gen):
             n = w.node
             ok = isinstance(n, ast.AugAssign) and isinstance(n.op, ast.Add) and isinstance(n.value, ast.Constant) and n.value.value == 1
             detail = stmt_text(n)
